@@ -34,10 +34,25 @@ def kw(call, name, default=None):
 
 
 def const(node, default=None):
+    """value of a literal expression; a name that the loader has marked as a module-level literal constant (normal form N2,
+    normalform.mark_module_constants: `VIEWPOINT_ANG = 180` ... `f(VIEWPOINT_ANG)`) has that constant's value"""
     try:
         return ast.literal_eval(node)
     except Exception:
-        return default
+        pass
+    if isinstance(node, ast.Name) and hasattr(node, '_xrsa_const'):
+        return node._xrsa_const
+    if isinstance(node, ast.UnaryOp) and isinstance(node.op, ast.USub) and isinstance(node.operand, ast.Name) and \
+            hasattr(node.operand, '_xrsa_const') and isinstance(node.operand._xrsa_const, (int, float)):
+        return -node.operand._xrsa_const
+    if isinstance(node, (ast.Tuple, ast.List)):
+        vals = [const(x, _MISSING) for x in node.elts]
+        if all(v is not _MISSING for v in vals):
+            return tuple(vals) if isinstance(node, ast.Tuple) else vals
+    return default
+
+
+_MISSING = object()
 
 
 class Inliner(ast.NodeTransformer):
